@@ -116,6 +116,37 @@ def families(s: int):
     return out
 
 
+def legacy_families(s: int):
+    """Models at a source opset BELOW 18 (outside the quantifier of C10, inside its statement): operators whose form changed
+    before 18 (attributes that became inputs), so that a correct conversion has to go through the fallback (which may add
+    initializers) and a refusal has to leave the old form under the old declaration."""
+    out = []
+    w = nh.from_array(np.array([1.0, 2.0, 3.0], dtype=np.float32), "w")
+
+    def add(tag, nodes, ins, outs, inits=()):
+        m = _model(nodes, ins, outs, list(inits), s)
+        out.append((f"legacy {tag} at opset {s}", m, [(n, dt, tuple(sh)) for n, dt, sh in ins]))
+
+    if s <= 10:
+        add("Pad<pads,value> after Add with an initializer",
+            [oh.make_node("Add", ["x", "w"], ["t"]), oh.make_node("Pad", ["t"], ["y"], pads=[1, 0, 0, 2], mode="constant", value=1.5)],
+            [("x", F, [2, 3])], [("y", F, [3, 5])], [w])
+        add("Pad<pads> negative (crop)", [oh.make_node("Pad", ["x"], ["y"], pads=[0, -1, 1, 0])], [("x", F, [2, 3])], [("y", F, [3, 2])])
+    if s <= 12:
+        add("Squeeze<axes>", [oh.make_node("Squeeze", ["x"], ["y"], axes=[1])], [("x", F, [2, 1, 3])], [("y", F, [2, 3])])
+        add("Unsqueeze<axes> with an initializer", [oh.make_node("Mul", ["x", "w"], ["t"]), oh.make_node("Unsqueeze", ["t"], ["y"], axes=[0, -1])],
+            [("x", F, [2, 3])], [("y", F, [1, 2, 3, 1])], [w])
+        add("ReduceSum<axes>", [oh.make_node("ReduceSum", ["x"], ["y"], axes=[-1], keepdims=0)], [("x", F, [2, 3])], [("y", F, [2])])
+        add("Split<split>", [oh.make_node("Split", ["x"], ["a", "b"], axis=1, split=[1, 2])], [("x", F, [2, 3])], [("a", F, [2, 1]), ("b", F, [2, 2])])
+    add("ReduceMean<axes>", [oh.make_node("ReduceMean", ["x"], ["y"], axes=[0], keepdims=1)], [("x", F, [2, 3])], [("y", F, [1, 3])])
+    add("unchanged ops with an initializer", [oh.make_node("Add", ["x", "w"], ["t"]), oh.make_node("Relu", ["t"], ["y"])],
+        [("x", F, [2, 3])], [("y", F, [2, 3])], [w])
+    return out
+
+
+LEGACY_SOURCES = [10, 11, 13]
+
+
 def _convert(mp: onnx.ModelProto, t: int, entry: str, fallback):
     from onnxscript import version_converter
     if entry == "proto":
@@ -234,6 +265,12 @@ def main(tier: str, only=None) -> int:
             if t < s and not fb and tier == "quick" and entry == "ir":
                 continue
             payloads.append((tag, m.SerializeToString(), [(n, int(dt), tuple(sh)) for n, dt, sh in spec], s, t, entry, fb))
+    for s in LEGACY_SOURCES:
+        targets = [18, 19, 21, 23, 25] if tier == "thorough" else [18, 21]
+        for (tag, m, spec), t, entry, fb in itertools.product(legacy_families(s), targets, ["ir", "proto"], [True, False]):
+            if only and only not in tag:
+                continue
+            payloads.append((tag, m.SerializeToString(), [(n, int(dt), tuple(sh)) for n, dt, sh in spec], s, t, entry, fb))
     with cf.ProcessPoolExecutor(max_workers=common.jobs()) as ex:
         results = list(ex.map(_worker, payloads, chunksize=8))
     known = [k for k in common.known_for("C10") if k.get("engine") == "S"]
@@ -290,7 +327,8 @@ def main(tier: str, only=None) -> int:
     run.coverage.update({
         "programs": len(results), "disagreements_checked": counts.get("cex", 0), "samples": samples or [{"note": "no conversion happened"}],
         "evaluations": len(results), "distinct_nontrivial": converted, "verdicts": counts, "queries": solver,
-        "matrix": {"sources": versions, "targets": "18..25", "entries": ["ir", "proto"], "fallback": [True, False]},
+        "matrix": {"sources": versions, "targets": "18..25", "entries": ["ir", "proto"], "fallback": [True, False],
+                   "legacy_sources_outside_the_quantifier": LEGACY_SOURCES},
         "functions_encoded": [common.src_ref(VC.convert_version), common.src_ref(VC.groupnormalization_20_21), common.src_ref(VC.dft_19_20),
                               common.src_ref(VC.gridsample_19_20)],
     })
